@@ -116,6 +116,7 @@ class Symex:
         self.concrete_iters = concrete_iters
         self.assume_reflexive = False
         self.live_iter_mut = False       # iter_mut over a collection of concrete length hands out references to the elements themselves (no havoc of the collection)
+        self.pure_assign_ops = False      # `a += b` on a generic scalar becomes the pure update a := a + b instead of an opaque effect
         self.resolve_by_receiver = False  # unresolved trait calls on concrete receivers are dispatched to the receiver type's impl (concrete-shape tables)
         self.fold_ground_eq = False      # structural == on fully concrete aggregates (only sound where no lazily evaluated closure can still mutate them)
         self.models = dict(DEFAULT_MODELS)
@@ -349,8 +350,12 @@ class Symex:
         if k == "field":
             idx, name = e[1], e[2]
             if v[0] == "adt":
+                if idx >= len(v[3]):
+                    raise Unanalysable("field %s of %s (wrong variant / arity)" % (idx, show(v)[:80]))
                 return v[3][idx]
             if v[0] == "tuple" or v[0] == "array":
+                if idx >= len(v[1]):
+                    raise Unanalysable("element %s of a %d-tuple" % (idx, len(v[1])))
                 return v[1][idx]
             if v[0] == "closure":
                 return v[2][idx]
@@ -675,12 +680,26 @@ class Symex:
                 else:
                     break
             if recv[0] == "adt":
-                for im in self.facts.impls_of(call.trait):
-                    if im["self_ty"].split("<")[0] == recv[1] and im.get("crate") in self.inline_crates:
-                        g = self.facts.impl_fn(im, call.method)
-                        if g is not None:
-                            target = (g, None)
-                            break
+                cands = [im for im in self.facts.impls_of(call.trait) if im["self_ty"].split("<")[0] == recv[1] and im.get("crate") in self.inline_crates]
+                if len(cands) > 1:
+                    # several impls for this receiver (a trait with a right-hand-side parameter): the other arguments' concrete types decide
+                    heads = []
+                    for a in args[1:]:
+                        v = a
+                        for _ in range(8):
+                            if v[0] == "ref":
+                                v = self.load(st, v[1])
+                            elif v[0] in ("&", "deref"):
+                                v = v[1]
+                            else:
+                                break
+                        heads.append(v[1] if v[0] == "adt" else None)
+                    if heads and all(heads):
+                        cands = [im for im in cands if all(any(h == str(t).lstrip("&").split("<")[0] for t in im.get("trait_args", [])[1:]) for h in heads)]
+                if len(cands) == 1:
+                    g = self.facts.impl_fn(cands[0], call.method)
+                    if g is not None:
+                        target = (g, None)
         if target is not None:
             cf, cinst = target
             if st.depth < self.max_depth and st.stack.count(cf.key) < 2 and not any(r.search(cf.path) for r in self.no_inline):
@@ -1086,6 +1105,20 @@ def m_int_const(op):
         b = vals[1][1] if len(vals) > 1 else None
         r = {"saturating_sub": lambda: max(0, a - b) if "<impl u" in (call.path or "") else a - b, "saturating_add": lambda: a + b, "abs_diff": lambda: abs(a - b)}[op]()
         return _ret(st, ("const", r))
+    return model
+
+
+def m_assign_op(op):
+    """<T as AddAssign>::add_assign(&mut a, b) on a generic scalar as the pure update a := a op b (opt-in: Symex.pure_assign_ops)"""
+    def model(ex, st, call, args):
+        if not ex.pure_assign_ops or len(args) != 2 or args[0][0] != "ref":
+            return NotImplemented
+        old = ex.canon(st, ex.load(st, args[0][1]))
+        if old[0] in ("adt", "array", "tuple", "havoc"):
+            return NotImplemented
+        new = ("call", "core::ops::arith::%s::%s" % (op.capitalize(), op), (old, ex.canon(st, args[1])))
+        ex.store(st, args[0][1], new, log=False)
+        return _ret(st, ("tuple", ()))
     return model
 
 
@@ -1565,6 +1598,10 @@ DEFAULT_MODELS = {
     "alloc::vec::Vec::<T>::with_capacity": m_vec_new,
     "alloc::vec::Vec::<T, A>::push": m_vec_push,
     "core::slice::<impl [T]>::swap": m_slice_swap,
+    "core::ops::arith::AddAssign::add_assign": m_assign_op("add"),
+    "core::ops::arith::SubAssign::sub_assign": m_assign_op("sub"),
+    "core::ops::arith::MulAssign::mul_assign": m_assign_op("mul"),
+    "core::ops::arith::DivAssign::div_assign": m_assign_op("div"),
     "core::num::<impl usize>::saturating_sub": m_int_const("saturating_sub"),
     "core::num::<impl usize>::saturating_add": m_int_const("saturating_add"),
     "core::num::<impl usize>::abs_diff": m_int_const("abs_diff"),
